@@ -101,11 +101,13 @@ def gen_op(ck: Check, pool: dict[str, Any]) -> dict[str, Any]:
         return {"op": "load", "types": rng.sample(["string", "decimal", "integer", "number", "null", "boolean", "float"], 3)}
     if r < 0.92:
         ck.histogram["op/read"] += 1
-        root = pool["odo_root"]
+        root, text = rng.choice(pool["odo"])
         envs = [gen_env(rng, root, rng.choice(["min", "max", "rand"])) for _ in range(rng.randint(1, 3))]
         recs = [build_record(root, e, salt=i) for i, e in enumerate(envs)]
-        fields = list(counters_of(root)) + [t.unique for t in tables_of(root) if t.level == 5][:2]
-        return {"op": "read", "text": pool["odo_text"], "records": [r.hex() for r in recs], "fields": fields, "keep": rng.random() < 0.5}
+        redef = [n.unique for n in preorder(root) if n.redefines and not n.is_group and n.level == 5]
+        redef += [n.redefines for n in preorder(root) if n.redefines and n.level == 5]
+        fields = list(counters_of(root)) + [t.unique for t in tables_of(root) if t.level == 5][:2] + redef[:4]
+        return {"op": "read", "text": text, "records": [r.hex() for r in recs], "fields": fields, "keep": rng.random() < 0.5}
     ck.histogram["op/drop"] += 1
     return {"op": "drop"}
 
@@ -113,12 +115,18 @@ def gen_op(ck: Check, pool: dict[str, Any]) -> dict[str, Any]:
 def explore(ck: Check, n_hist: int, max_len: int) -> None:
     rng = ck.rng
     # a fixed ODO copybook for the read operations
-    while True:
-        tg = TreeGen(rng, max_depth=2, max_width=4, odo=True, redefines=False)
-        root = tg.record()
-        if tables_of(root):
-            break
-    pool = {"odo_root": root, "odo_text": render([root], Style()),
+    odo = []
+    for want_redefines in (False, True, True):
+        while True:
+            tg = TreeGen(rng, max_depth=2, max_width=5, odo=True, redefines=want_redefines)
+            root = tg.record()
+            # with REDEFINES: an elementary level-05 redefinition placed after a table, so that its offset depends on the counter
+            if tables_of(root) and (not want_redefines or any(
+                    n.redefines and n.level == 5 and not n.is_group and i > min(j for j, m in enumerate(root.children) if m.odo or any(
+                        k.odo for k in preorder(m))) for i, n in enumerate(root.children))):
+                break
+        odo.append((root, render([root], Style())))
+    pool = {"odo": odo,
             "simple": "       01 R.\n           05 A PIC 9(3).\n           05 B PIC S9(3)V99 COMP-3.\n           05 C PIC X(4).\n"}
     cache: dict[str, Any] = {}
     worker = Worker()
@@ -145,7 +153,8 @@ def explore(ck: Check, n_hist: int, max_len: int) -> None:
             imm = worker.call({"op": "check_immutable"})
             ck.oracle_evaluations += 1
             if not imm.get("immutable", False):
-                ck.fail("schema-mutated", f"a schema changed while it was used: {imm.get('detail')}", inp)
+                ck.fail("kept-row-changed" if "kept row" in str(imm.get("detail")) else "schema-mutated",
+                        f"a schema or a row that is still held changed while later work was done: {imm.get('detail')}", inp)
             # model: names / kinds of the modelled operations of this history (each history continues the worker's state,
             # so the model is run on the probe alone: by the theorem its answer does not depend on the prefix)
             mo = model_op(probe)
